@@ -1,6 +1,7 @@
 package tf
 
 import (
+	"golang.org/x/tools/go/cfg"
 	"fmt"
 	"go/ast"
 	"go/token"
@@ -308,6 +309,60 @@ func runSlots(c *Ctx) {
 		})
 		if nd == 0 {
 			c.Bad("release/runTransfer/delete", rt.Pos(), "runTransfer never releases its slot")
+		}
+		// the owner settles the receiver's status before it gives the slot up: whatever the transfer returned (round 8)
+		{
+			g := rt.CFG()
+			nset := 0
+			ast.Inspect(rt.Body, func(m ast.Node) bool {
+				is, ok := m.(*ast.IfStmt)
+				if !ok {
+					return true
+				}
+				if _, isLit := m.(*ast.FuncLit); isLit {
+					return false
+				}
+				// the ownership test that guards status writes
+				mentionsActive := false
+				ast.Inspect(is.Cond, func(x ast.Node) bool {
+					if ix, ok := x.(*ast.IndexExpr); ok && isField(info, ix.X, active) {
+						mentionsActive = true
+					}
+					return true
+				})
+				writes := false
+				ast.Inspect(is.Body, func(x ast.Node) bool {
+					if as, ok := x.(*ast.AssignStmt); ok && len(as.Lhs) == 1 && isField(info, as.Lhs[0], statusF) {
+						writes = true
+					}
+					return true
+				})
+				if !mentionsActive || !writes {
+					return true
+				}
+				var then *cfg.Block
+				for _, b := range g.Blocks {
+					if b.Stmt == ast.Stmt(is) && b.Kind == cfg.KindIfThen {
+						then = b
+					}
+				}
+				if then == nil {
+					return true
+				}
+				nset++
+				good := func(nd ast.Node) bool {
+					as, ok := nd.(*ast.AssignStmt)
+					return ok && len(as.Lhs) == 1 && isField(info, as.Lhs[0], statusF)
+				}
+				stop := func(b *cfg.Block) bool { return b.Stmt == ast.Stmt(is) && b.Kind == cfg.KindIfDone }
+				c.Check(regionAllPathsHit(g, then, good, stop, false), fmt.Sprintf("release/runTransfer/settled#%d", nset), is.Pos(), "the owner of the slot writes a final status on every path, whatever the transfer returned",
+					"runTransfer releases its slot on a path that leaves the receiver's status as it was (TRANSFERRING): the slot is free and the next receiver starts, but the books show a transfer that nobody runs - "+
+						"an error class that is skipped (a wrapped context.Canceled is what a transfer that failed by itself returns, its own contexts are cancelled by the goroutine that failed first) is a transfer that ended without being recorded as failed")
+				return false
+			})
+			if nset == 0 {
+				c.Bad("release/runTransfer/settled", rt.Pos(), "runTransfer has no branch that writes the receiver's final status under its ownership test")
+			}
 		}
 		ne := 0
 		for _, b := range rt.CFG().Blocks {
